@@ -199,6 +199,33 @@ def norm_replies(frames):
     return out
 
 
+def burst_case(tags, total):
+    """Register + as many Read Tag requests as fit + one Write Tag sized to make the burst exactly `total` bytes, written in one piece, then silence:
+    returns (bytes sent, frames sent, replies received within 3 s) - or None when no such burst exists (all frames have even lengths)"""
+    rd = wire.send_rr_data(wire.read_tag('A', 0, 1), session=1, context=b'RDRDRDRD')
+    base = len(wire.send_rr_data(wire.write_tag('A', 0, 0xc3, []), session=1, context=b'WRWRWRWR'))
+    n = (total - 28) // len(rd)
+    fill = None
+    while n > 0:
+        rest_ = total - 28 - n * len(rd)
+        if rest_ == 0:
+            fill = b''
+            break
+        if rest_ >= base and (rest_ - base) % 2 == 0 and (rest_ - base) // 2 <= 200:
+            fill = wire.send_rr_data(wire.write_tag('A', 0, 0xc3, [7] * ((rest_ - base) // 2)), session=1, context=b'WRWRWRWR')
+            break
+        n -= 1
+    if fill is None:
+        return None
+    burst = wire.register() + rd * n + fill
+    want = 1 + n + (1 if fill else 0)
+    h = Harness(tags)
+    h.send([burst], gap=0)
+    got = h.recv_frames(want, wait=3.0)
+    h.finish(wait=0.3)
+    return len(burst), want, len(got)
+
+
 def bounded(tier, seed):
     rng = random.Random(seed)
     ev = 0
@@ -290,13 +317,25 @@ def bounded(tier, seed):
             viol('truncation at byte %d of %d' % (k, len(stream)),
                  'replies %d request-calls %d tags %r thread-alive %r' % (len(got['replies']), got['calls'].count('request'), got['tags'], got['alive']),
                  '%d complete frames: that many calls and replies, tags %r, handler ended' % (complete, exp_tags))
+    # ---- (5) bursts of complete requests whose total length fills the receive buffer exactly (or misses it by one): every request whose final
+    # byte was delivered is answered without waiting for any further byte
+    for total in (4096, 8192, 4094, 4098) if tier == 'quick' else (4096, 8192, 12288, 4094, 4098, 2048, 4096 + 2048):
+        r = burst_case(tags, total)
+        if r is None:
+            continue
+        ev += 1
+        distinct.add(('burst', total))
+        nbytes, want, got = r
+        if nbytes != total or got != want:
+            viol('one burst of %d bytes (%d complete frames), then silence' % (nbytes, want), '%d replies within 3 s' % got,
+                 'all %d replies: a request is acted upon when its final byte has been delivered' % want)
     ev += client_side(tier, rng, viol, distinct)
     return dict(evaluations=ev, distinct_nontrivial=len(distinct), distinct_keys=distinct_keys(distinct),
                 rule='reference-encoded streams (Register + 1..3 SendRRData requests: Read/Write Tag, Read Tag Fragmented, Multiple Service Packet); '
                      '(1) real enip_machine fed like enip_srv_tcp: two-way splits (all in thorough, sampled + boundaries in quick), byte-at-a-time, seeded k-way; '
                      '(2) real enip_srv_tcp over a socket pair with a counting wrapper of the real logix.process: same replies and tag effects, coalesced frames; '
                      '(3) truncation offsets followed by EOF: calls == replies == number of complete frames, no tag change for the unfinished frame, handler thread ends; '
-                     '(4) the real client.client receive path fed a reply stream by a scripted peer in two-way splits / 7-byte chunks: same parsed replies; distinct = distinct (round, chunk lengths) / truncation offsets',
+                     '(5) single bursts of exactly 4096 / 8192 / 4094 / 4098 bytes of complete requests followed by silence: all replies arrive; (4) the real client.client receive path fed a reply stream by a scripted peer in two-way splits / 7-byte chunks: same parsed replies; distinct = distinct (round, chunk lengths) / truncation offsets',
                 exhaustive=False, samples=samples, violations=violations[:20], seed=seed)
 
 
